@@ -9,6 +9,6 @@ tmp=$(mktemp -d /tmp/bleveverif-try.XXXXXX); mkdir -p "$tmp/ov" "$tmp/verif"; cp
 for f in $(grep -E '^\+\+\+ b/' "$PATCH" | sed 's#^+++ b/##'); do mkdir -p "$tmp/ov/$(dirname "$f")"; cp "$REPO/$f" "$tmp/ov/$f"; done
 ( cd "$tmp/ov" && patch -p1 -s < "$PATCH" ) || { echo "patch does not apply"; rm -rf "$tmp"; exit 2; }
 for p in "$@"; do
-  ./bin/bleveverif -prop "$p" -tier quick -repo "$REPO" -overlay-root "$tmp/ov" -verif "$tmp/verif" 2>&1 | grep -E "violated|VIOLATION|UNDECIDED" | cut -c1-${CUT:-260} | head -${HEAD:-8}
+  "${BLEVEVERIF_BIN:-./bin/bleveverif}" -prop "$p" -tier quick -repo "$REPO" -overlay-root "$tmp/ov" -verif "$tmp/verif" 2>&1 | grep -E "violated|VIOLATION|UNDECIDED" | cut -c1-${CUT:-260} | head -${HEAD:-8}
 done
 rm -rf "$tmp"
